@@ -557,11 +557,12 @@ def c11(tier, rng, fam='C11'):
     out += stuck_handler_with_deadline(fam)
     out += ends_while_another_write_is_stuck(fam)
     # a peer that sends more than expected: several replies to one unary call, extra stream envelopes
-    for extra in (1, 2, 3, 4):
-        b = B(fam, 'raw server sends %d replies to one unary call' % (extra + 1), rawsrv=True, ser=True)
+    for extra, bare in [(e, False) for e in (1, 2, 3, 4)] + [(e, True) for e in (1, 2, 3, 5)]:
+        # (bare: replies that carry a body and nothing else - no trailer, no status: the first one answers the call)
+        b = B(fam, 'raw server sends %d %sreplies to one unary call' % (extra + 1, 'trailer-less ' if bare else ''), rawsrv=True, ser=True)
         b.step('ucall', c=1, pay='q')
         for i in range(extra + 1):
-            b.step('inj', dir='s2c', env=env(1, b='rep%d' % i, t=[]), nw=True)
+            b.step('inj', dir='s2c', env=(env(1, b='rep%d' % i) if bare else env(1, b='rep%d' % i, t=[])), nw=True)
         b.step('wait')
         b.step('ucall', c=99, pay='probe', to=1000)
         b.step('inj', dir='s2c', env=env(2, b='pong', t=[]))
